@@ -27,6 +27,8 @@ type dinst struct {
 	scalars   map[*Sort][]*Term // closed variables / reads per scalar sort (for bound variables without a trigger)
 	done      map[string]bool
 	budget    int
+	sizes     map[*Term]int
+	hh        *hasher
 	out       []*Term
 }
 
@@ -222,14 +224,31 @@ func triggersFor(body *Term, bs []*Term) map[*Term][]trig {
 	return out
 }
 
-func (d *dinst) candidates(b *Term, trigs []trig, limit int) []*Term {
+// candidates: ground terms to instantiate b with. All matches are collected first and the smallest ones kept
+// (ties by structural hash), so the choice does not depend on the order in which terms happened to be created.
+func (d *dinst) candidates(b *Term, trigs []trig, limit0 int) []*Term {
 	var out []*Term
 	seen := map[*Term]bool{}
+	limit := 4000
 	add := func(v *Term) {
 		if v != nil && !seen[v] && len(out) < limit && len(v.fb) == 0 {
 			seen[v] = true
 			out = append(out, v)
 		}
+	}
+	defer func() {}()
+	finish := func() []*Term {
+		if len(out) <= limit0 {
+			return out
+		}
+		sort.SliceStable(out, func(i, j int) bool {
+			si, sj := d.size(out[i]), d.size(out[j])
+			if si != sj {
+				return si < sj
+			}
+			return d.hh.hash(out[i]) < d.hh.hash(out[j])
+		})
+		return out[:limit0]
 	}
 	for _, s := range d.skolems[b.S] {
 		add(s)
@@ -292,7 +311,7 @@ func (d *dinst) candidates(b *Term, trigs []trig, limit int) []*Term {
 			}
 		}
 	}
-	return out
+	return finish()
 }
 
 // process instantiates the positively occurring quantifiers of h.
@@ -438,7 +457,7 @@ func (q *Query) DirectedStages(rounds int) []*Query {
 		return nil
 	}
 	d := &dinst{leafCache: map[*Term]map[*Term]bool{}, selBySort: map[*Sort][]*Term{}, appsByOp: map[string][]*Term{},
-		inR: map[*Term]bool{}, skolems: map[*Sort][]*Term{}, scalars: map[*Sort][]*Term{}, done: map[string]bool{}, budget: 6000}
+		inR: map[*Term]bool{}, skolems: map[*Sort][]*Term{}, scalars: map[*Sort][]*Term{}, done: map[string]bool{}, budget: 6000, sizes: map[*Term]int{}, hh: &hasher{memo: map[*Term]string{}, sorted: true}}
 	for _, s := range sks {
 		d.skolems[s.S] = append(d.skolems[s.S], s)
 	}
@@ -474,7 +493,7 @@ func (q *Query) DirectedStages(rounds int) []*Query {
 			}
 			d.addGround(f)
 		}
-		sort.SliceStable(fr, func(i, j int) bool { return fr[i].id < fr[j].id })
+		sort.SliceStable(fr, func(i, j int) bool { return d.hh.hash(fr[i]) < d.hh.hash(fr[j]) })
 		perRound = append(perRound, fr)
 		if os.Getenv("GOVC_DEBUG") != "" {
 			fmt.Fprintf(os.Stderr, "dinst round %d: %d quantified hyps, %d qf hyps (%d near), %d new instances\n", r, len(qhyps), len(qf), len(near), len(fr))
@@ -616,4 +635,21 @@ func splitIff(t *Term) *Term {
 		return Implies(t.Args[0], splitIff(t.Args[1]))
 	}
 	return t
+}
+
+// size: number of nodes of the term as a tree (capped), memoised.
+func (d *dinst) size(t *Term) int {
+	if n, ok := d.sizes[t]; ok {
+		return n
+	}
+	n := 1
+	for _, a := range t.Args {
+		n += d.size(a)
+		if n > 1000000 {
+			n = 1000000
+			break
+		}
+	}
+	d.sizes[t] = n
+	return n
 }
